@@ -451,7 +451,15 @@ def formulas(P, rep, thorough=False, rule="EXPR.models"):
             z = sp.Symbol("z", real=True)
             depth_k = [pk for pk in F.params if P.d(pk).get("n") == "depth"]
 
+            sentinel_branches = []     # (true branch, false branch) of `X < 0 ? adiabat : X`
+
             def hookc(nn):
+                if nn.get("k") == "ConditionalOperator":
+                    c_ = sc(nn["c"][0])
+                    if c_.get("k") == "BinaryOperator" and c_.get("op") == "<" and sc(c_["c"][1]).get("k") in ("IntegerLiteral", "FloatingLiteral") \
+                            and float(sc(c_["c"][1]).get("v")) == 0.0 and norm.render(P, c_["c"][0], nocast=True) == norm.render(P, nn["c"][2], nocast=True):
+                        sentinel_branches.append((nn["c"][1], nn["c"][2]))
+                        return sp.Symbol("top_temperature_or_adiabat", real=True)
                 if nn.get("k") == "MemberExpr" and astq.is_this_field(P, nn) and nn.get("n") in ("top_heat_flux", "thermal_conductivity", "heat_production_per_unit_volume"):
                     return {"top_heat_flux": q, "thermal_conductivity": kc, "heat_production_per_unit_volume": A}[nn["n"]]
                 if nn.get("k") == "DeclRefExpr" and depth_k and nn.get("r") == depth_k[0]:
@@ -494,10 +502,13 @@ def formulas(P, rep, thorough=False, rule="EXPR.models"):
                 topk = symw.keys.get(top) if top.is_Symbol else None
                 if topk is None:
                     topk = next((k_ for q_, k_ in symw.keys.items() if str(q_) == str(top)), None)
-                for asg in F.walk():
-                    if asg.get("k") == "BinaryOperator" and asg.get("op") == "=" and topk is not None and astq.is_ref_to(sc(asg["c"][0]), topk):
+                cands_ = [(asg, asg["c"][1]) for asg in F.walk() if asg.get("k") == "BinaryOperator" and asg.get("op") == "=" and topk is not None
+                          and astq.is_ref_to(sc(asg["c"][0]), topk)]
+                cands_ += [(tb, tb) for tb, _ in sentinel_branches]
+                for asg, rhs_ in cands_:
+                    if True:
                         try:
-                            rv = symw(asg["c"][1])
+                            rv = symw(rhs_)
                         except Exception:
                             continue
                         if not rv.has(Tp_):
